@@ -2,9 +2,7 @@
 // cfg(all(test, osrg_rustybgp_verif)) (crate root: reaches `convert`, `bmp`, `mrt`).
 #![allow(dead_code, unused_imports)]
 
-#[cfg(any(verif_all, verif_c17))]
-#[path = "/verif/harness/daemon/c17.rs"]
-mod c17;
+// (c17.rs is included from event.rs: it needs `event::GrpcService`)
 #[cfg(any(verif_all, verif_c19))]
 #[path = "/verif/harness/daemon/c19.rs"]
 mod c19;
